@@ -509,6 +509,89 @@ theorem withdrawable_reachable_partial (cfg : Cfg) (L : Ledger) (hL : LedgerOk L
   simp only [step, Op.chain?, hc, ↓reduceIte, stepCore, hnz, hk, bind, Except.bind, hrun, pure, Except.pure]
   exact ⟨_, rfl⟩
 
+/-! ### module-owned tokens: exactly when a withdrawal is refused -/
+
+/-- **the escrow condition of a module-owned token, exactly**: `BaseCoinToBridgeToken` (the money flow of sendToExternal /
+an outgoing bridge call) of `n` of a module-owned token through chain `c` succeeds IF AND ONLY IF the holder has `n` base
+coins, the chain's module account holds `n` of THAT chain's bridge denomination, and the two supplies are at least `n`
+(true whenever supply bounds balances).  So the only way such a request is refused although the holder's balance
+suffices is a short escrow on that chain's module account — the known findings are precisely the two ways the escrow
+gets short (deposit through another chain; refund parked in the erc20 module account). -/
+theorem moduleOwned_withdraw_iff (g c u n : Nat) (L : Ledger)
+    (hown : L.owner (.base g) = none ∧ L.owner (.bridge g c) = none) :
+    (∃ L', runFlow (baseCoinToBridgeToken .moduleOwned g c (U u) n) L = .ok L') ↔
+      (n ≤ L.bal (.base g) (U u) ∧ n ≤ L.supply (.base g) ∧ n ≤ L.bal (.bridge g c) (M c) ∧ n ≤ L.supply (.bridge g c)) := by
+  have hne : ¬ (Addr.chainMod c = Addr.user u) := by simp
+  have hne' : ¬ (Addr.user u = Addr.chainMod c) := by simp
+  have hab : ¬ (Asset.bridge g c = Asset.base g) := by simp
+  have hba : ¬ (Asset.base g = Asset.bridge g c) := by simp
+  have hadd : ∀ a : Nat, ¬ (a + n < n) := by intro a; omega
+  simp only [baseCoinToBridgeToken, conversionCoin, withdrawBridgeToken, Bool.false_eq_true, ↓reduceIte, List.cons_append,
+    List.nil_append, U, M]
+  by_cases h1 : L.bal (.base g) (.user u) < n
+  · simp [runFlow, applyPrim, h1]; try omega
+  by_cases h2 : L.supply (.base g) < n
+  · simp [runFlow, applyPrim, h1, h2, ownerOk, hown.1, Ledger.setBal, Ledger.setSupply, upd, hne, hne', hadd]; try omega
+  by_cases h3 : L.bal (.bridge g c) (.chainMod c) < n
+  · simp [runFlow, applyPrim, h1, h2, h3, ownerOk, hown.1, hown.2, Ledger.setBal, Ledger.setSupply, upd, hne, hne', hab, hba, hadd]
+    try omega
+  by_cases h4 : L.supply (.bridge g c) < n
+  · simp [runFlow, applyPrim, h1, h2, h3, h4, ownerOk, hown.1, hown.2, Ledger.setBal, Ledger.setSupply, upd, hne, hne', hab, hba, hadd]
+    try omega
+  · simp [runFlow, applyPrim, h1, h2, h3, h4, ownerOk, hown.1, hown.2, Ledger.setBal, Ledger.setSupply, upd, hne, hne', hab, hba, hadd]
+    try omega
+
+/-- **for every reachable state**: from every initial ledger whose supplies bound its balances (`LedgerOk`), after every
+operation sequence, a holder's `MsgSendToExternal` of a module-owned token (positive amount and fee) through chain `c`
+succeeds iff `amount + fee` is at most the holder's base balance AND at most the bridge denomination escrowed in the
+module account of chain `c`.  This replaces the monitor-only treatment of module-owned withdrawability: together with
+`withdrawable_reachable_partial` (locking tokens: always) the refusals for lack of escrow are characterised for every
+ownership kind. -/
+theorem moduleOwned_send_iff (cfg : Cfg) (L : Ledger) (hL : LedgerOk L) (e0 : Nat → Nat → Nat) (ops : List Op)
+    (c g u n fee : Nat) (hk : bridged cfg g c = some .moduleOwned) (hn : 0 < n) (hf : 0 < fee) :
+    (∃ s', step cfg (runOps cfg (initE L e0) ops) (.send c g u n fee) = .ok s') ↔
+      (n + fee ≤ baseBal (runOps cfg (initE L e0) ops) g u ∧
+       n + fee ≤ (runOps cfg (initE L e0) ops).L.bal (.bridge g c) (M c)) := by
+  have hok := runOps_ledgerOk cfg ops (initE L e0) hL
+  generalize runOps cfg (initE L e0) ops = s at hok ⊢
+  obtain ⟨hbd, ho1, ho2⟩ := hok
+  have hs1 : s.L.bal (.base g) (U u) ≤ s.L.supply (.base g) := by
+    have := hbd (.base g) [U u] (by simp); simpa [sumL] using this
+  have hs2 : s.L.bal (.bridge g c) (M c) ≤ s.L.supply (.bridge g c) := by
+    have := hbd (.bridge g c) [M c] (by simp); simpa [sumL] using this
+  have hc : c < nChains := by
+    unfold bridged at hk; split at hk
+    · rename_i h; exact h.1
+    · cases hk
+  have hnz : ¬ (n = 0 ∨ fee = 0) := by omega
+  have key := moduleOwned_withdraw_iff g c u (n + fee) s.L ⟨ho1 g, ho2 g c⟩
+  simp only [step, Op.chain?, hc, ↓reduceIte, stepCore, hnz, hk, bind, Except.bind, pure, Except.pure, baseBal]
+  constructor
+  · rintro ⟨s', h⟩
+    cases hr : run s (baseCoinToBridgeToken .moduleOwned g c (U u) (n + fee)) with
+    | error e => simp [hr] at h
+    | ok s1 =>
+      obtain ⟨L', hL', _⟩ := run_ok hr
+      have := key.mp ⟨L', hL'⟩
+      omega
+  · intro h
+    obtain ⟨L', hL'⟩ := key.mpr ⟨h.1, by omega, h.2, by omega⟩
+    have hrun : run s (baseCoinToBridgeToken .moduleOwned g c (U u) (n + fee)) = .ok { s with L := L' } := by
+      simp only [run, hL']
+    simp only [hrun]
+    exact ⟨_, rfl⟩
+
+/-- non-vacuity / both directions on the witnesses: after a deposit of 10 through chain 0 the escrow there is 10 and a
+send of 5 + 1 succeeds; after the refunded bridge call of `withdrawable_fails_after_refund` the holder again has 10 base
+coins but the escrow of chain 0 is 0 (the 10 sit in the erc20 module account), and the same send is refused -/
+example :
+    let s1 := runOps cfgW (init ledgerW) [.deposit 0 1 1 10 false]
+    let s2 := runOps cfgW (init ledgerW) [.deposit 0 1 1 10 false, .bcout 0 1 1 [(1, 10)] false, .bcresult 0 1 false]
+    (decide (baseBal s1 1 1 = 10 ∧ s1.L.bal (.bridge 1 0) (M 0) = 10 ∧ baseBal s2 1 1 = 10 ∧
+        s2.L.bal (.bridge 1 0) (M 0) = 0 ∧ s2.L.bal (.bridge 1 0) E = 10) &&
+      (match step cfgW s1 (.send 0 1 1 5 1) with | .ok _ => true | _ => false) &&
+      isInsufficient (step cfgW s2 (.send 0 1 1 5 1))) = true := by decide
+
 /-- non-vacuity of `withdrawable_reachable_partial`: the ledger of the examples is `LedgerOk`, and after a history with
 a pending batch and a deposit user 0 still holds FX to send -/
 example : LedgerOk { ledgerE with bal := fun a x => if a = .base 0 ∧ x = U 0 then 1000 else 0, supply := fun a => if a = .base 0 then 1000 else 0 } := by
